@@ -21,7 +21,7 @@ use rand::seq::SliceRandom;
 use rand::SeedableRng;
 use serde_json::{json, Map, Value};
 
-use crate::util::{quiet_panics, read_cases, str_of, Out};
+use crate::util::{quiet_panics, read_cases, str_of, Out, u64_of};
 
 const NUM_KEYS: [&str; 11] = ["depth", "seldepth", "time", "nodes", "multipv", "currmovenumber", "hashfull", "nps", "tbhits", "sbhits", "cpuload"];
 pub(crate) const WATCHDOG: Duration = Duration::from_secs(60);
@@ -142,6 +142,13 @@ impl<'a> Session<'a> {
     /// output (e.g. `go infinite` on a forced mate iterates thousands of depths per second) is logged up to a
     /// cap and then only counted.
     fn drain_until_bestmove(&mut self, stop_after: Option<Duration>, ponderhit_after: Option<Duration>) {
+        self.drain_until_bestmove_with(stop_after, ponderhit_after, None)
+    }
+
+    /// `during`: a position command (fen, moves) sent after the given time while the search is running.  The engine drops such a
+    /// command; the session's own idea of the current position is therefore left alone.
+    fn drain_until_bestmove_with(&mut self, stop_after: Option<Duration>, ponderhit_after: Option<Duration>, during: Option<(Duration, String, Vec<String>)>) {
+        let mut during = during;
         const MAX_LOGGED: usize = 400;
         let started = Instant::now();
         let mut stop_sent = stop_after.is_none();
@@ -150,6 +157,15 @@ impl<'a> Session<'a> {
         let mut skipped = 0u64;
         let mut last_msg = Instant::now();
         loop {
+            if let Some((at, fen, moves)) = during.clone() {
+                if started.elapsed() >= at {
+                    during = None;
+                    self.emit_in("position", json!({"fen": fen, "moves": moves}));
+                    if let Ok(f) = Fen::from_str(&fen) {
+                        self.engine.accept(UciCommand::PositionFrom { fen: f, moves: moves.iter().filter_map(|m| UciMove::from_str(m).ok()).collect() });
+                    }
+                }
+            }
             // a ponderhit in the middle of the search (the engine does not ponder: the command must change nothing that is reported)
             if !hit_sent && started.elapsed() >= ponderhit_after.unwrap() {
                 hit_sent = true;
@@ -169,6 +185,7 @@ impl<'a> Session<'a> {
             }
             let wait = if stop_sent { WATCHDOG.saturating_sub(last_msg.elapsed()).max(Duration::from_millis(1)) }
                        else { stop_after.unwrap().saturating_sub(started.elapsed()).max(Duration::from_micros(200)) };
+            let wait = match &during { Some((at, _, _)) => wait.min(at.saturating_sub(started.elapsed()).max(Duration::from_micros(200))), None => wait };
             let wait = if hit_sent { wait } else { wait.min(ponderhit_after.unwrap().saturating_sub(started.elapsed()).max(Duration::from_micros(200))) };
             match self.rx.recv_timeout(wait) {
                 Ok(UciTxCommand::Info { info }) => {
@@ -250,7 +267,9 @@ impl<'a> Session<'a> {
         verif::take_iterations();
         self.emit_in("go", json!({"searchmoves": sm, "limited": limited || at.is_some(), "params": step}));
         self.engine.accept(UciCommand::Go { go });
-        self.drain_until_bestmove(ms(step, "stop_after_ms"), ms(step, "ponderhit_after_ms"));
+        let during = step.get("position_during").map(|p| (Duration::from_millis(u64_of(p, "after_ms", 50)), str_of(p, "fen"),
+                                                         p.get("moves").and_then(|x| x.as_array()).map(|a| a.iter().map(|m| m.as_str().unwrap_or("").to_string()).collect()).unwrap_or_default()));
+        self.drain_until_bestmove_with(ms(step, "stop_after_ms"), ms(step, "ponderhit_after_ms"), during);
         verif::disarm_abort();
     }
 
